@@ -25,6 +25,8 @@ CONSTANTS MaxLayers,    \* layers per image
           MaxEntries,   \* entries per layer: a sequence indexed by layer number (cfg: <- operator)
           Kinds,        \* entry kinds offered: subset of {"f1","f2","dir","link","wh","opq"}
           Limit,        \* per-file byte limit of the image loader (0: default, far above every file); f1 has 1 byte, f2 has 2
+          FixResurrect, \* TRUE: an older whiteout / non-directory at a path that a newer layer re-created as a directory marks
+                        \* that directory "hidesOlder", so even older contents below it do not reappear (as repaired)
           FixHidden     \* TRUE: the code hides entries under a whited-out or non-directory ancestor at any depth
                         \* (as repaired); FALSE: the original inWhiteoutDir that stops at the first missing node
 
@@ -87,7 +89,7 @@ WellFormedView(v) == \A p \in Paths : (v[p] # None /\ Parent[p] # Root) => v[Par
 -----------------------------------------------------------------------------
 (* -------- operational: transcription of fillChainLayersWithFilesFromTar -------- *)
 \* a path-tree value: [k: "-" (no value) | kind, wh: BOOLEAN]
-TNone == [k |-> None, wh |-> FALSE]
+TNone == [k |-> None, wh |-> FALSE, ho |-> FALSE]
 EmptyTree == [p \in Paths |-> TNone]
 Has(t, p) == t[p].k # None
 
@@ -98,8 +100,10 @@ HiddenByAncestor(t, p) ==
        IF ~Has(t, d) THEN (IF FixHidden THEN HiddenByAncestor(t, d) ELSE FALSE)
        ELSE IF t[d].wh THEN TRUE
        ELSE IF FixHidden /\ t[d].k # "dir" THEN TRUE
+       ELSE IF FixResurrect /\ t[d].ho THEN TRUE
        ELSE HiddenByAncestor(t, d)
-FillOne(t, p, node) == IF Has(t, p) \/ HiddenByAncestor(t, p) THEN t ELSE [t EXCEPT ![p] = node]
+FillOne(t, p, node) == IF Has(t, p) THEN (IF node.wh \/ node.k # "dir" THEN [t EXCEPT ![p].ho = TRUE] ELSE t)
+                       ELSE IF HiddenByAncestor(t, p) THEN t ELSE [t EXCEPT ![p] = node]
 FillFrom(trees, i, n, p, node) == [j \in 1..n |-> IF j >= i THEN FillOne(trees[j], p, node) ELSE trees[j]]
 AncSeq(p) == SortSeq(SetToSeq(Ancestors(p)), LAMBDA x, y : Depth[x] < Depth[y])
 RECURSIVE PopulateDirs(_, _, _, _)
@@ -107,12 +111,12 @@ PopulateDirs(trees, i, n, ds) ==
   IF ds = <<>> THEN trees
   ELSE LET d == Head(ds) IN
        IF Has(trees[i], d) THEN PopulateDirs(trees, i, n, Tail(ds))
-       ELSE PopulateDirs(FillFrom(trees, i, n, d, [k |-> "dir", wh |-> FALSE]), i, n, Tail(ds))
+       ELSE PopulateDirs(FillFrom(trees, i, n, d, [k |-> "dir", wh |-> FALSE, ho |-> FALSE]), i, n, Tail(ds))
 \* one tar entry of layer i (n chain layers in total)
 ProcessEntry(trees, i, n, e) ==
   IF e.kind = "opq" THEN PopulateDirs(trees, i, n, AncSeq(e.path) \o <<e.path>>)   \* an inert node named ".wh..opq" in the directory
   ELSE IF Has(trees[i], e.path) THEN trees                                           \* "already exists in the current chain layer"
-  ELSE LET node == IF e.kind = "wh" THEN [k |-> "f1", wh |-> TRUE] ELSE [k |-> e.kind, wh |-> FALSE]
+  ELSE LET node == IF e.kind = "wh" THEN [k |-> "f1", wh |-> TRUE, ho |-> FALSE] ELSE [k |-> e.kind, wh |-> FALSE, ho |-> FALSE]
        IN FillFrom(PopulateDirs(trees, i, n, AncSeq(e.path)), i, n, e.path, node)
 RECURSIVE ProcessLayer(_, _, _, _)
 ProcessLayer(trees, i, n, es) == IF es = <<>> THEN trees ELSE ProcessLayer(ProcessEntry(trees, i, n, Head(es)), i, n, Tail(es))
